@@ -69,20 +69,8 @@ def routed_vs_unrouted(P, Q, stamps):
     return "used_preagg=true" in s1, con.execute(s1).fetchall(), con.execute(s0).fetchall(), s1
 
 
-def run(ck: Check):
+def compare_trunc(ck, drv, stamps):
     G = cal.GRANS
-    # (T) translator
-    try:
-        table, hier, _ = tcompat.translate()
-        ck.obligation("translator Gen/Compat.lean (36 entries of _is_granularity_compatible)", True, f"hierarchy keys {hier}")
-    except Exception as e:  # fail closed
-        ck.obligation("translator Gen/Compat.lean", False, f"untranslatable: {e!r}")
-        table = None
-    ok = ck.prove("SideVerif.Properties.C09", ["SideVerif.Proofs.Calendar"])
-
-    drv = Driver()
-    stamps = boundary_timestamps(ck.rng, ck.tier == "thorough")
-    # (K1) Lean trunc vs DuckDB DATE_TRUNC (TIMESTAMP and DATE inputs)
     con = duck.connect()
     con.execute("CREATE TABLE s (t BIGINT)")
     con.executemany("INSERT INTO s VALUES (?)", [(t,) for t in stamps])
@@ -99,6 +87,24 @@ def run(ck: Check):
                     ck.obligation(f"correspondence Cal.trunc vs DuckDB DATE_TRUNC('{g}')", False, f"t={t} ({ts_of(t)}) lean={m} duckdb_ts={d_ts} duckdb_date={d_date}")
     if mism == 0:
         ck.obligation("correspondence Cal.trunc vs DuckDB DATE_TRUNC (6 granularities, TIMESTAMP and DATE)", True, f"{len(stamps)} timestamps x 6")
+    return con
+
+
+def run(ck: Check):
+    G = cal.GRANS
+    # (T) translator
+    try:
+        table, hier, _ = tcompat.translate()
+        ck.obligation("translator Gen/Compat.lean (36 entries of _is_granularity_compatible)", True, f"hierarchy keys {hier}")
+    except Exception as e:  # fail closed
+        ck.obligation("translator Gen/Compat.lean", False, f"untranslatable: {e!r}")
+        table = None
+    ok = ck.prove("SideVerif.Properties.C09", ["SideVerif.Proofs.Calendar"])
+
+    drv = Driver()
+    stamps = boundary_timestamps(ck.rng, ck.tier == "thorough")
+    # (K1) Lean trunc vs DuckDB DATE_TRUNC (TIMESTAMP and DATE inputs)
+    con = compare_trunc(ck, drv, stamps)
 
     # (K2) unknown names + the table itself through the driver
     names = G + ["minute", "second", "fortnight", "", "Month", "DAY", "decade", "week ", "weeks"]
